@@ -845,7 +845,7 @@ theorem complete (gens : ℕ → List G × List G) (k width : ℕ)
   · rw [hdrop]; exact hparse
   · rw [hsum', hw]; exact (isPow2_iff _).mpr ⟨k, rfl⟩
   · rw [htake, hsum']; exact hc
-  · obtain ⟨uSq, uInvSq, s, t', d, hvs, rfl⟩ := challenges_some _ _ _ _ hc
+  · obtain ⟨uSq, uInvSq, s, t', d, hvs, rfl⟩ := Props.C04.challenges_some _ _ _ _ hc
     obtain ⟨q1, q2, q3, -, -, -⟩ := Props.C04.verificationScalars_lengths _ _ _ _ _ _ _ hvs
     simp only [megaScalars, megaPoints, List.length_append, List.length_cons, List.length_nil, List.length_map,
       List.length_zip, List.length_reverse, powers_length, concatZAnd2_length, q1, q2, q3, hg1, hg2, hsum',
